@@ -101,13 +101,60 @@ def isFloat (s : List Char) : Bool :=
 /-- value of a digit string (most significant first) -/
 def digitsVal (ds : List Char) : Nat := ds.foldl (fun a c => a * 10 + (c.toNat - '0'.toNat)) 0
 
+/-- smallest real that `atof` (correctly rounded `strtod`, round to nearest even) turns into +inf:
+    `2^1024 - 2^970` = DBL_MAX + half an ulp -/
+def dblOverflow : Nat :=
+  179769313486231580793728971405303415079934132710037826936173778980444968292764750946649017977587207096330286416692887910946555547851940402630657488671505820681908902000708383676273854845817711531764475730270069855571366959622842914819860834936475292719074168444365510704342711559699508093042880177904174497792
+
+/-- an upper bound used only to avoid evaluating `10 ^ e` for absurd exponents: `10 ^ 310 > dblOverflow` -/
+def expCut : Nat := 310
+
+/-- mantissa and decimal exponent of a string of the shape accepted by `IsFloat`
+    (`[+-]? d* '.'? d* ([eE][+-]?d+)?` after trimming): (M, number of mantissa digits, F, exponent negative?, E);
+    the value is `± M · 10^(±E - F)` with `M` = all mantissa digits read as one integer,
+    `F` = number of digits after the point -/
+def floatParts (t : List Char) : Nat × Nat × Nat × Bool × Nat :=
+  let t1 := skipSign t
+  let ip := t1.takeWhile isDigit
+  let r1 := t1.dropWhile isDigit
+  let r2 := match r1 with
+            | '.' :: r => r
+            | r => r
+  let fp := r2.takeWhile isDigit
+  let r3 := r2.dropWhile isDigit
+  let (eneg, ed) := match r3 with
+    | _ :: '-' :: r => (true, r.takeWhile isDigit)
+    | _ :: '+' :: r => (false, r.takeWhile isDigit)
+    | _ :: r => (false, r.takeWhile isDigit)
+    | [] => (false, [])
+  (digitsVal (ip ++ fp), (ip ++ fp).length, fp.length, eneg, digitsVal ed)
+
+/-- `std::isfinite(atof(s))` for a string accepted by `IsFloat`: the exact decimal value is below `dblOverflow`
+    (underflow to 0 / denormals are finite).  `10 ^ k` is only evaluated for `k` bounded by the length of the
+    string or by `expCut`. -/
+def finiteLit (s : List Char) : Bool :=
+  let (m, nd, f, eneg, e) := floatParts (trim s)
+  if m == 0 then true
+  else if eneg || e ≤ f then
+    let k := if eneg then e + f else f - e           -- value = M / 10^k
+    if k ≥ nd then true                              -- M < 10^nd ≤ 10^k
+    else decide (m < dblOverflow * 10 ^ k)
+  else
+    let k := e - f                                   -- value = M · 10^k, k ≥ 1
+    if k > expCut then false
+    else decide (m * 10 ^ k < dblOverflow)
+
+/-- `CoreParser::toDouble` acceptance: `IsFloat(s)` and `std::isfinite(atof(s))` (since 425dbdc) -/
+def toDoubleOk (s : List Char) : Bool := isFloat s && finiteLit s
+
 /-- `CoreParser::toIndex`: every character blank or digit, then `toDouble`;
     the value is `static_cast<int>(atof(s))`, i.e. the digit string read in base 10
-    (`none` = rejected).  Values ≥ 2^31 are accepted by the C++ (the cast is undefined there);
+    (`none` = rejected).  For a digit string `atof` is finite iff the integer is below `dblOverflow`.
+    Values ≥ 2^31 are accepted by the C++ (the cast is undefined there);
     the model returns the mathematical value. -/
 def toIndex (s : List Char) : Option Nat :=
   if s.all (fun c => isSpace c || isDigit c) then
-    if isFloat s then some (digitsVal (trim s)) else none
+    if isFloat s && decide (digitsVal (trim s) < dblOverflow) then some (digitsVal (trim s)) else none
   else none
 
 /-- `CoreParser::toInteger` acceptance -/
